@@ -105,6 +105,11 @@ pub fn natives() -> Vec<Spec> {
 		out.push(Spec::Native(Native::PoisOwned(n)));
 	}
 	out.push(Spec::Native(Native::OwnedPoisR));
+	for which in 0..4u8 {
+		for n in 0..=3 {
+			out.push(Spec::Native(Native::MutRefs(which, n)));
+		}
+	}
 	out
 }
 
